@@ -98,7 +98,7 @@ def gen_cases(tier, seed):
         cons = gen.rand_subpath_constraints(rng, P, n=rng.randint(1, 2)) if P else []
         r = rng.random()
         cov, covlen = (1.0, None) if r < 0.4 else ((rng.choice([0.5, 0.75]), None) if r < 0.7 else (1.0, rng.choice([0.4, 0.7, 1.0])))
-        lengths = [[u, v, rng.choice([1, 3, 7])] for (u, v) in edges if rng.random() < 0.7] if covlen else []
+        lengths = [[u, v, rng.choice([1, 3, 7, 0, 0])] for (u, v) in edges if rng.random() < 0.7] if covlen else []      # zero-length edges: covering "100% of the length" does not force them
         cases.append({"kind": "dagmodel", "spec": gen.spec(nodes, edges, eattr={(u, v): {"len": l} for u, v, l in lengths}), "cons": gen.jl(cons), "cov": cov, "covlen": covlen,
                       "lengths": lengths, "k": rng.randint(1, 3), "cls": rng.choice(["kPathCover", "kPathCover", "kLeastAbsErrors"]),
                       "oo": rng.choice([{}, {"optimize_with_safe_paths": False, "optimize_with_safe_sequences": True}, {"optimize_with_safe_paths": True}, {"optimize_with_safe_paths": False}])})
